@@ -26,7 +26,11 @@ impl builtins::Command for AliasCommand {
 
         if self.print || self.aliases.is_empty() {
             for (name, value) in context.shell.aliases() {
-                writeln!(context.stdout(), "alias {name}={}", quote_alias_value(value))?;
+                writeln!(
+                    context.stdout(),
+                    "alias {name}={}",
+                    quote_alias_value(value)
+                )?;
             }
         } else {
             for alias in &self.aliases {
@@ -38,7 +42,11 @@ impl builtins::Command for AliasCommand {
                         .aliases_mut()
                         .insert(name.to_owned(), unexpanded_value.to_owned());
                 } else if let Some(value) = context.shell.aliases().get(alias) {
-                    writeln!(context.stdout(), "alias {alias}={}", quote_alias_value(value))?;
+                    writeln!(
+                        context.stdout(),
+                        "alias {alias}={}",
+                        quote_alias_value(value)
+                    )?;
                 } else {
                     writeln!(
                         context.stderr(),
